@@ -916,7 +916,7 @@ def check_lines_legal(chk, tag, cases, impl, need_report=True):
     """every reported line legal under the rules; at least one report per search of a live position"""
     q = []; idx = []
     for i, (c, out) in enumerate(zip(cases, impl)):
-        fens = c.split('\t')[-1].split('|')
+        fens = [x.rsplit('@', 1)[0] for x in c.split('\t')[-1].split('|')]
         ps = parse_search(out)
         if ps is None or len(ps) != len(fens):
             continue
@@ -1026,7 +1026,36 @@ def check_C03(chk, binp):
     bsm = stream(chk, 'forced schedules (2..4 workers): events + final table + schedule entries used', ms, msi, msm, 'extracted n-worker model (Conc.analyze_iterativeM) under the same schedule')
     chk.extra['forced_schedules'] = {'cases': len(ms), 'workers': hist([c.split('\t')[4] for c in ms]), 'schedule_lengths': hist([str(len(c.split('\t')[8].split(',')) if c.split('\t')[8] != '-' else 0) for c in ms]),
                                     'entries_used': hist([tok[1:] for o in msi if o for tok in o.split(' ') if tok.startswith('S')])}
-    allc = cases + mw + ms; alli = impl + mimpl + msi
+    # REUSED MEMORY, deeper first: P searched to depth 3..5, then a position two plies below P searched shallowly with the same
+    # memory: the new root was an inner node (often a cut node with a stored bound) of the first search. Real code only;
+    # the reports are checked below like all others (at least one non-empty legal line per search)
+    roots = [G.START, 'r1bqkbnr/pppp1ppp/2n5/4p3/2B1P3/5N2/PPPP1PPP/RNBQK2R b KQkq - 3 3', 'r1bq1rk1/pp2bppp/2n1pn2/2pp4/3P1B2/2PBPN2/PP1N1PPP/R2QK2R w KQ - 4 8'] + rnd.sample(sel, min(len(sel), 12 if quick else 200))
+    g1 = run_cases(MODEL, ['specgen\t' + f for f in roots], 'C03-two-a')
+    mids = []
+    for f, r in zip(roots, g1):
+        succ = [x.split('=', 1)[1] for x in (r or '').split(';') if '=' in x]
+        for m in rnd.sample(succ, min(len(succ), 3)):
+            mids.append((f, m))
+    g2 = run_cases(MODEL, ['specgen\t' + m for (_, m) in mids], 'C03-two-b')
+    deepch = []
+    for (f, m), r in zip(mids, g2):
+        succ = [x.split('=', 1)[1] for x in (r or '').split(';') if '=' in x]
+        for p2 in rnd.sample(succ, min(len(succ), 2)):
+            men = sum(c.isalpha() for c in f.split(' ')[0])
+            d1 = rnd.choice([3, 4, 5]) if men <= 12 else rnd.choice([3, 4])
+            nt, nb = rnd.choice([(4, 256), (2, 64), (8, 1024)])
+            deepch.append('search\t%d\t%d\t%d\t-\t1\t%d\t%d\t-\t%s@%d|%s@%d' % (rnd.randrange(1 << 30), rnd.randrange(1 << 50), d1, nt, nb, f, d1, p2, rnd.choice([1, 2])))
+    deepch = deepch[:80 if quick else 1500]
+    # and, from three rich roots, many second positions after a depth-5 first search (second search: one iteration)
+    for (f, m), r in zip(mids, g2):
+        if f not in roots[:3]:
+            continue
+        succ = [x.split('=', 1)[1] for x in (r or '').split(';') if '=' in x]
+        for p2 in rnd.sample(succ, min(len(succ), 14 if quick else 30)):
+            deepch.append('search\t%d\t%d\t5\t-\t1\t8\t1024\t-\t%s@5|%s@1' % (rnd.randrange(1 << 30), rnd.randrange(1 << 50), f, p2))
+    deepi = run_cases(binp, deepch, 'C03-deep-impl', shards=16, timeout=1200)
+    chk.extra['deeper_first_chains'] = len(deepch)
+    allc = cases + mw + ms + deepch; alli = impl + mimpl + msi + deepi
     bad, nlines = check_lines_legal(chk, 'C03', allc, alli)
     chk.streams.append({'name': 'every reported line legal move by move (1..8 workers)', 'against': 'extracted rules specification', 'cases': nlines, 'disagreements': len(bad)})
     noreport = []
@@ -1688,6 +1717,44 @@ def check_C07(chk, binp):
             nb += 1
             chk.violation('UCI session %d: %s' % (i, problems[0]), {'kind': 'history', 'problems': problems[:5], 'transcript': [(s['cmd'], s['out'][-6:]) for s in steps][:80]}, found_input=True)
     chk.streams.append({'name': 'seeded well-formed UCI sessions monitored against the rules (position tracking, one legal bestmove per go, protocol, exit status)', 'against': 'session monitor + extracted rules specification', 'cases': len(res), 'disagreements': nb})
+    # isready WHILE a search runs: readyok must come at once, before the bestmove of a search that still has seconds to go
+    BUSY = ['r1bq1rk1/pp2bppp/2n1pn2/2pp4/3P1B2/2PBPN2/PP1N1PPP/R2QK2R w KQ - 4 8', 'r4rk1/1pp1qppp/p1np1n2/2b1p1B1/2B1P1b1/P1NP1N2/1PP1QPPP/R4RK1 w - - 0 10',
+            '8/2p5/3p4/KP5r/1R3p1k/8/4P1P1/8 w - - 0 1', 'r3k2r/p1ppqpb1/bn2pnp1/3PN3/1p2P3/2N2Q1p/PPPBBPPP/R3K2R w KQkq - 0 1']
+    def busy_session(fen):
+        se = U.Session(binp)
+        probs = []
+        try:
+            se.send('position fen ' + fen)
+            se.send('go movetime 2500', sync=False)
+            time.sleep(0.7)                             # well inside the search (the writer thread is long running by now)
+            t0 = time.time()
+            st = se.send('isready')                     # out = everything printed before readyok
+            dt = time.time() - t0
+            if not st['synced']:
+                probs.append('no readyok after go on %s' % fen)
+            elif any('book move' in l for l in st['out']):
+                pass            # answered from the book: no search is running
+            elif any(l.startswith('bestmove') for l in st['out']):
+                probs.append('isready sent 0.7 s into `go movetime 2500` was answered only after the bestmove (%.0f ms later) on %s' % (dt * 1000, fen))
+            elif dt > 1.2:
+                probs.append('isready sent 0.7 s into `go movetime 2500` was answered after %.0f ms on %s' % (dt * 1000, fen))
+            st = se.send('uci')
+            if 'uciok' not in st['out']:
+                probs.append('uci not answered while searching')
+            se.send('stop')
+        finally:
+            rc = se.close()
+        if rc != 0:
+            probs.append('exit status %r' % rc)
+        return probs
+    import concurrent.futures as cf3
+    with cf3.ThreadPoolExecutor(max_workers=2) as ex:
+        bres = list(ex.map(busy_session, BUSY if not quick else BUSY[:3]))
+    bbad = [p for p in bres if p]
+    chk.streams.append({'name': 'isready / uci sent while a search with seconds to go is running: answered at once, before its bestmove', 'against': 'the property', 'cases': len(bres), 'disagreements': len(bbad)})
+    chk.evaluations += len(bres)
+    for p in bbad[:2]:
+        chk.violation('UCI while searching: %s' % p[0], {'kind': 'history', 'problems': p}, found_input=True)
     chk.evaluations += sum(len(s) for s, _, _ in res)
     chk.extra['go_commands'] = ngo
     chk.extra['sessions'] = len(res)
